@@ -1,6 +1,7 @@
 import Pendulum.Proofs.ZoneOps
 import Pendulum.Model.DTOps
 import Pendulum.Proofs.AddDur
+import Pendulum.Proofs.AddDurGen
 import Pendulum.Props.C01
 /-! # C03 — adding fixed-length units moves the instant by exactly that elapsed time -/
 namespace Pendulum.Props.C03
@@ -124,6 +125,30 @@ theorem subtract_returns (z : Z) (hz : z.WF) (w : Int) (f : Bool) (hh mi s us : 
 theorem addChecked_eq_add (v : V) (y mo wk d hh mi s us : Int) (h : inRange (v.w - v.offset) = true) :
     DTOps.addChecked v y mo wk d hh mi s us = DTOps.add v y mo wk d hh mi s us := by
   unfold DTOps.addChecked; simp [h]
+
+/-- **the source itself**: `helpers.add_duration`, regenerated from `src/pendulum/helpers.py` on every run
+    (`tools/gen_addduration.py`, one Lean definition per source statement), computes for a datetime argument exactly what the
+    hand model `AddDur.addDuration` computes — for every start and every integer argument tuple. A change to the carry
+    code, the month overflow or the day clamp breaks this obligation. -/
+theorem add_duration_source_eq_model (w years months weeks days hours minutes seconds micros : Int) :
+    AddDur.addDuration w years months weeks days hours minutes seconds micros =
+      (match Gen.add_duration (wallToFields w).1 (wallToFields w).2.1 (wallToFields w).2.2.1 false
+              years months weeks days hours minutes seconds micros with
+       | .ok (y2, m2, day, d', h, mi, s, us) =>
+         if y2 < 1 ∨ y2 > 9999 then .error .valueError
+         else
+           let r := fieldsToWall y2 m2 day (wallToFields w).2.2.2 + totalUs d' h mi s us
+           if r < minWall ∨ r > maxWall then .error .overflow else .ok r
+       | .error _ => .error .valueError) := by
+  rw [add_duration_gen]
+  unfold AddDur.addDuration
+  simp only []
+
+/-- and for a plain `date` argument it raises RuntimeError exactly when a time component is passed -/
+theorem add_duration_source_date (y m d years months weeks days hours minutes seconds micros : Int) :
+    (Gen.add_duration y m d true years months weeks days hours minutes seconds micros = .error "RuntimeError") ↔
+      (hours ≠ 0 ∨ minutes ≠ 0 ∨ seconds ≠ 0 ∨ micros ≠ 0) :=
+  add_duration_gen_date y m d years months weeks days hours minutes seconds micros
 
 /-! non-vacuity -/
 example : (DTOps.add ⟨.named ⟨3600000000, [⟨1000000000000, 7200000000⟩]⟩, 1001800000000, false⟩ 0 0 0 0 1 0 0 0).toOption.map (·.w)
